@@ -62,7 +62,58 @@ Local Notation qr := (@RefAlgSpec.qr R).
 (* what the operand list means: the normalised representations denote the given reals, one by one *)
 Definition args_denote (args : seq rnum) (vals : seq R) : Prop := dens (List.map rn_norm args) vals.
 
-Lemma same_as_sound fuel r o : same_as fuel r o -> exists2 z, o = Some z & same_number fuel r z.
+Local Notation pr := (@RefAlgSpec.pr R).
+
+(* opposite strict signs of a polynomial at two points give a root strictly between them *)
+Lemma ivt_strict (q : {poly R}) (a b : R) : a < b -> q.[a] < 0 -> 0 < q.[b] -> exists2 u, a < u < b & root q u.
+Proof.
+move=> ab qa qb; have [u /andP[au ub] ru] := @poly_ivt _ q a b (ltW ab) (introT andP (conj (ltW qa) (ltW qb))).
+exists u => //; rewrite !lt_neqAle au ub !andbT; apply/andP; split; apply/eqP => E.
+  by move: ru qa; rewrite -E rootE => /eqP ->; rewrite ltxx.
+by move: ru qb; rewrite E rootE => /eqP ->; rewrite ltxx.
+Qed.
+
+Lemma zr_sg_lt0 (s : Z) (x : R) : zr s = sgr x -> Z.lt s 0 -> x < 0.
+Proof. by rewrite /RefAlgSpec.zr => /esym H s0; rewrite -sgr_lt0 H ltrz0; lia. Qed.
+Lemma zr_sg_gt0 (s : Z) (x : R) : zr s = sgr x -> Z.lt 0 s -> 0 < x.
+Proof. by rewrite /RefAlgSpec.zr => /esym H s0; rewrite -sgr_gt0 H ltr0z; lia. Qed.
+
+Lemma cert_eq_sound (r z : rnum) (v : R) : cert_eq r z -> denotes z v -> denotes (rn_norm r) v.
+Proof.
+case: r => [//|f lo hi]; case: z => [//|q l h]; rewrite /cert_eq.
+move=> /andP[/andP[/andP[val /Z.ltb_lt clo] /Z.ltb_lt chi] sg] dz.
+have [w dw] := RefAlgFinal.rn_valid_denotes R val.
+move: (dz) => [[Hl Hh] /andP[lv vh] rv uq sgz].
+move: (dw) => /= [[Hlo Hhi] _ rw uw _].
+have f0 : Poly f != 0.
+  by move: val => /= /andP[/andP[/andP[/andP[_ /pis_zeroP/eqP]]]].
+(* lo < v < hi *)
+have lov : qr lo < v by rewrite -subr_gt0; exact: zr_sg_gt0 (rn_cmp_q_spec dz Hlo) clo.
+have vhi : v < qr hi by rewrite -subr_lt0; exact: zr_sg_lt0 (rn_cmp_q_spec dz Hhi) chi.
+(* the gcd has opposite signs at l and h: a common root in (l, h), which is v *)
+set g := pgcd f q in sg.
+have lh := lt_trans lv vh.
+have [u /andP[lu uh] ru] : exists2 u, qr l < u < qr h & root (pr g) u.
+  case/orP: sg => /andP[/Z.ltb_lt s1 /Z.ltb_lt s2].
+    exact: ivt_strict lh (zr_sg_lt0 (psgn_qP R g Hl) s1) (zr_sg_gt0 (psgn_qP R g Hh) s2).
+  have [u Hu ru] : exists2 u, qr l < u < qr h & root (- pr g) u.
+    apply: ivt_strict lh _ _; rewrite hornerN ?oppr_lt0 ?oppr_gt0.
+      exact: zr_sg_gt0 (psgn_qP R g Hl) s1.
+    exact: zr_sg_lt0 (psgn_qP R g Hh) s2.
+  by exists u => //; move: ru; rewrite rootN.
+have : root (gcdp (pr f) (pr q)) u by rewrite -(eqp_root (pr_pgcd R q f0)).
+rewrite root_gcd => /andP[rfu rqu].
+have uv : u = v by apply: uq => //; rewrite lu uh.
+have [_ _ Hroot] := psqfree_correct R f0.
+have rfv : root (pr (psqfree f)) v by rewrite Hroot -uv.
+have -> : v = w by apply: uw => //; rewrite lov vhi.
+exact: dw.
+Qed.
+
+Lemma same_num_sound fuel (r z : rnum) (v : R) : same_num fuel r z -> denotes z v -> denotes (rn_norm r) v.
+Proof. by move=> /orP[c|s] dz; [exact: cert_eq_sound c dz | exact: same_number_sound s dz]. Qed.
+
+Lemma same_as_sound fuel r o : same_as fuel r o -> exists2 z, o = Some z & same_num fuel r z.
 Proof. by case: o => [z|//] s; exists z. Qed.
 
 Lemma qposbP q : qposb q -> qpos q.
@@ -78,21 +129,21 @@ Lemma accept_add_sound fuel x y r a b : denotes (rn_norm x) a -> denotes (rn_nor
   accept_op fuel KAdd [:: x; y] (VNum r) -> denotes (rn_norm r) (a + b).
 Proof.
 move=> dx dy /same_as_sound[z E s].
-exact: same_number_sound s (rn_add_spec dx dy (etrans (esym (add_shE _ _ _)) E)).
+exact: same_num_sound s (rn_add_spec dx dy (etrans (esym (add_shE _ _ _)) E)).
 Qed.
 
 Lemma accept_sub_sound fuel x y r a b : denotes (rn_norm x) a -> denotes (rn_norm y) b ->
   accept_op fuel KSub [:: x; y] (VNum r) -> denotes (rn_norm r) (a - b).
 Proof.
 move=> dx dy /same_as_sound[z E s].
-exact: same_number_sound s (rn_sub_spec dx dy (etrans (esym (sub_shE _ _ _)) E)).
+exact: same_num_sound s (rn_sub_spec dx dy (etrans (esym (sub_shE _ _ _)) E)).
 Qed.
 
 Lemma accept_mul_sound fuel x y r a b : denotes (rn_norm x) a -> denotes (rn_norm y) b ->
   accept_op fuel KMul [:: x; y] (VNum r) -> denotes (rn_norm r) (a * b).
 Proof.
 move=> dx dy /same_as_sound[z E s].
-exact: same_number_sound s (rn_mul_spec dx dy (etrans (esym (mul_shE _ _ _)) E)).
+exact: same_num_sound s (rn_mul_spec dx dy (etrans (esym (mul_shE _ _ _)) E)).
 Qed.
 
 Lemma accept_div_sound fuel x y r a b : denotes (rn_norm x) a -> denotes (rn_norm y) b ->
@@ -100,7 +151,7 @@ Lemma accept_div_sound fuel x y r a b : denotes (rn_norm x) a -> denotes (rn_nor
 Proof.
 move=> dx dy /same_as_sound[z E s].
 have [b0 dz] := rn_div_spec dx dy (etrans (esym (div_shE _ _ _)) E); split=> //.
-exact: same_number_sound s dz.
+exact: same_num_sound s dz.
 Qed.
 
 Lemma accept_div_undef_sound fuel x y a b : denotes (rn_norm x) a -> denotes (rn_norm y) b ->
@@ -114,7 +165,7 @@ Lemma accept_neg_sound fuel x r a : denotes (rn_norm x) a ->
   accept_op fuel KNeg [:: x] (VNum r) -> denotes (rn_norm r) (- a).
 Proof.
 move=> dx s.
-exact: same_number_sound s (rn_neg_spec dx).
+exact: same_num_sound s (rn_neg_spec dx).
 Qed.
 
 Lemma accept_inv_sound fuel x r a : denotes (rn_norm x) a ->
@@ -122,7 +173,7 @@ Lemma accept_inv_sound fuel x r a : denotes (rn_norm x) a ->
 Proof.
 move=> dx /same_as_sound[z E s].
 have [a0 dz] := rn_inv_spec dx E; split=> //.
-exact: same_number_sound s dz.
+exact: same_num_sound s dz.
 Qed.
 
 Lemma accept_inv_undef_sound fuel x a : denotes (rn_norm x) a ->
@@ -136,7 +187,7 @@ Lemma accept_pow_sound fuel n x r a : denotes (rn_norm x) a ->
   accept_op fuel (KPow n) [:: x] (VNum r) -> denotes (rn_norm r) (a ^+ n).
 Proof.
 move=> dx /same_as_sound[z E s].
-exact: same_number_sound s (rn_pow_direct_spec dx (etrans (esym (pow_shE _ _ _)) E)).
+exact: same_num_sound s (rn_pow_direct_spec dx (etrans (esym (pow_shE _ _ _)) E)).
 Qed.
 
 (* positive_root: the printed representation denotes THE non-negative n-th root of a *)
@@ -244,7 +295,7 @@ Lemma accept_same_sound fuel x r a : denotes (rn_norm x) a ->
   accept_op fuel KSame [:: x] (VNum r) -> denotes (rn_norm r) a.
 Proof.
 move=> dx; rewrite /accept_op => /orP[/rn_eqrepP <- //|s].
-exact: same_number_sound s dx.
+exact: same_num_sound s dx.
 Qed.
 
 (* ---------------------------------------------------------------- ONE statement for all operations *)
